@@ -43,7 +43,16 @@ Stacked == {[rules |-> <<Rule1(<<CPrint(rc, "min")>>), Rule2>>,
              rc \in RuleConds, f1 \in FilterConds, f2 \in FilterConds, k2 \in {"name", "other"}}
 Underscore == {[rules |-> <<Rule1(<<CPrint(rc, "min")>>), Rule2>>, filters |-> <<MkFilter(2, fc, Ls(cat1, <<>>, <<>>), "any")>>] :
              rc \in RuleConds, fc \in FilterConds \cup {CId(n_usx), CSel("1", <<95,42>>)}}
-ASSUME LET S == SetToSeq(Single \cup TwoConds \cup Underscore \cup (IF Quick THEN RandomSubset(150, Stacked) ELSE Stacked))
+\* two rules that the same filter targets, converted through a pipeline that renames every field (suffix _x):
+\* the filter's detections are copied into both rules and must be transformed once in each
+r3name == <<114,51>>
+Rule3(rc) == [name |-> r3name, uid |-> Uid(3), ls |-> RuleLs,
+              doc |-> [dets |-> [k \in 1..Len(RuleNames) |-> Det(<<83,95>>, RuleNames[k])], conds |-> rc]]
+TwoTargets == {[rules |-> <<Rule1(<<CPrint(rc, "min")>>), Rule3(<<CPrint(rc, "min")>>)>>,
+                filters |-> <<MkFilter(1, fc, Ls(cat1, <<>>, <<>>), "any")>>, pipe |-> TRUE] :
+                 rc \in {CId(n_sel), CSel("all", S_them)}, fc \in FilterConds}
+NoPipe(S) == {c @@ [pipe |-> FALSE] : c \in S}
+ASSUME LET S == SetToSeq(TwoTargets \cup NoPipe(Single \cup TwoConds \cup Underscore \cup (IF Quick THEN RandomSubset(150, Stacked) ELSE Stacked)))
        IN  ndJsonSerialize(IOEnv.VERIF_OUT, [i \in 1..Len(S) |-> [id |-> i] @@ S[i]])
 Init == x = 0
 Next == UNCHANGED x
